@@ -214,6 +214,20 @@ pub unsafe extern "C" fn kill(pid: pid_t, sig: c_int) -> c_int {
     }
 }
 
+/// any other way of sending a signal is routed to the same kernel hook, with the target the kernel would see
+/// (a process group is a negative pid): the oracle demands "exactly the child's process id"
+#[no_mangle]
+pub unsafe extern "C" fn killpg(pgrp: pid_t, sig: c_int) -> c_int {
+    match ask(|k| k.kill(-pgrp, sig)) {
+        Ans::Pass => libc::syscall(libc::SYS_kill, (-pgrp) as c_long, sig as c_long) as c_int,
+        Ans::Ret(()) => 0,
+        Ans::Err(e) => {
+            set_errno(e);
+            -1
+        }
+    }
+}
+
 #[no_mangle]
 pub unsafe extern "C" fn clock_gettime(clk: libc::clockid_t, ts: *mut libc::timespec) -> c_int {
     if clk == libc::CLOCK_MONOTONIC {
